@@ -114,7 +114,7 @@ def generate_frac_sweep(idx, tier='quick'):
     actors = []
     for a in range(rng.choice([2, 2, 3])):
         tok = gen.Tokens(start=a * 100000 + block * 100, prefix='abcd'[a])
-        actors.append([corpus.gen_call(rng, tok, cid='abcd'[a], kinds=['segment_build', 'parse_segment', 'field_override', 'group_build', 'group_build', 'group_build', 'group_build'],
+        actors.append([corpus.gen_call(rng, tok, cid='abcd'[a], kinds=['segment_build', 'parse_segment', 'field_override', 'group_build', 'group_build', 'group_build', 'highlight_encode', 'highlight_encode'],
                                        invalid_p=0.0, version=shared if rng.random() < 0.7 else None)])
     j = idx % SWEEP_G
     # even j: a fraction of all line events of actor 0; odd j: a fraction of its line events inside the
